@@ -10,7 +10,8 @@ name="$(basename "$seed")"; wt="/tmp/mut-$slot"
 if [ ! -d "$wt" ]; then git -C /repo worktree add -q --detach "$wt" HEAD || exit 2; fi
 git -C "$wt" checkout -q --detach "$(git -C /repo rev-parse HEAD)" 2>/dev/null
 git -C "$wt" checkout -q -- . ; git -C "$wt" clean -fdq
-git -C "$wt" apply "$seed/patch.diff" || { echo "SEED $name patch does not apply"; exit 1; }
+# 3-way against the blobs the patch names (see confirm_seed.sh), else the patch as delivered
+if git -C "$wt" apply --3way "$seed/patch.diff" >/dev/null 2>&1; then git -C "$wt" reset -q; else git -C "$wt" reset -q --hard; git -C "$wt" apply "$seed/patch.diff"; fi || { echo "SEED $name patch does not apply"; exit 1; }
 for pid in "$@"; do
   log="$seed/check_$pid.log"
   timeout 3000 python3 /verif/tools/vp_alt.py --repo "$wt" --name "$slot" --keep "$pid" > "$log" 2>&1
